@@ -870,6 +870,9 @@ class TrigTime:
                     if now >= start and not startup:
                         secs = period * (1.0 + math.floor((now - start).total_seconds() / period))
                         this_t = start + dt.timedelta(seconds=secs)
+                        if this_t <= now:
+                            # the division was rounded down (eg, 0.3 / 0.1 is 2.999...)
+                            this_t += dt.timedelta(seconds=period)
                         if now < this_t and (next_time is None or this_t < next_time):
                             next_time_adj = next_time = this_t
                     continue
@@ -890,6 +893,9 @@ class TrigTime:
                         break
                     secs = period * (1.0 + math.floor((now - start).total_seconds() / period))
                     this_t = start + dt.timedelta(seconds=secs)
+                    if this_t <= now:
+                        # the division was rounded down (eg, 0.3 / 0.1 is 2.999...)
+                        this_t += dt.timedelta(seconds=period)
                     if start <= this_t <= end:
                         if next_time is None or this_t < next_time:
                             next_time_adj = next_time = this_t
